@@ -1,16 +1,20 @@
 """C05 - values cross the host boundary unchanged in both directions.
 
 Spec: spec/Layout.tla (the representation rule: C layout of enums with a u8 tag, by value / by pointer /
-      dropped, return pointer), spec/Boundary.tla (routes = sequences of crossings; the only transition is
-      Transfer, after which received = sent), spec/MCBoundary.tla, spec/TraceLayout.tla, spec/TraceBoundary.tla.
+      dropped, return pointer; memory images Encode / Decode), spec/Boundary.tla (routes = sequences of
+      crossings rust_arg, rust_ret, host_arg, host_ret, ctx, const and the script-side construct / match /
+      select; the only transition is Transfer, after which received = sent), spec/MCBoundary.tla,
+      spec/TraceLayout.tla, spec/TraceBoundary.tla.
 S->I: TLC enumerates the configuration space (route x types x position x value class): every boundary type of
-      the depth <= 1 grammar (thorough: restricted depth 2) on the routes id / hecho / hgive / const / build /
-      match, seven-argument vectors with the type under test at every position 1..7 (Rust -> script `pick`,
-      script -> host function `hpick`), context structs in every declared field order; for every type and
-      value TLC also checks the layout invariants and that the memory image decodes to the value.  Every
-      emitted configuration carries the observations the receiving side must show; the harness (compiled-in
-      type table generated from TLC's UNIVERSE by tools/gen_c05_types.py) makes the values, sends them
-      through the real crate and reports what arrived; python compares.
+      the depth <= 1 grammar (thorough: restricted depth 2) on the routes id / hecho (host function) / hmeth
+      (method) / hgive / const / build (constructors) / buildf (accept, reject) / match; seven-parameter
+      vectors with the type under test at every position 1..7 and with 2..6 slot-occupying parameters (Rust ->
+      script `pick`, script -> host function `hpick`, zero-sized parameters at every position); context
+      structs in every declared field order.  For every type and value TLC also checks the layout invariants
+      and that the memory image decodes to the value.  Every emitted configuration carries the observations
+      the receiving side must show; the harness (compiled-in type table generated from TLC's UNIVERSE by
+      tools/gen_c05_types.py) makes the values, sends them through the real crate and reports what arrived,
+      mapped back to descriptors; python compares.
 I->S: (a) rustc's size/align/payload offsets of `<T as Value>::Transformed` and the way `T::AsParam` travels,
       for every table type, must be what Layout says (TraceLayout.tla); (b) seeded random configurations with
       random values (beyond TLC's classes) are executed and the recorded transfers must be behaviours of
@@ -129,7 +133,17 @@ def group_cases(cfgs):
 
 def execute(cfgs, tag, nproc=8):
     """Run the configurations; returns one result per configuration:
-    {'o':..,'sent':..} | {'panic':..} | {'crash':..} | {'hang':True} | {'compile_error':..} | {'setup_error':..}"""
+    {'o':..,'sent':..} | {'panic':..} | {'crash':..} | {'hang':True} | {'compile_error':..} | {'setup_error':..}
+    Configurations in the scope of the known zero-sized-argument defect pass wild pointers around; they run in worker
+    processes of their own so that a damaged heap cannot disturb the verdict on any other configuration."""
+    wild = [n for n, c in enumerate(cfgs) if zst_val_arg_before(c) == "yes"]
+    if wild and len(wild) < len(cfgs):
+        tame = [n for n in range(len(cfgs)) if n not in set(wild)]
+        out = [None] * len(cfgs)
+        for ns, t in ((tame, tag), (wild, tag + "_zst")):
+            for n, r in zip(ns, execute([cfgs[n] for n in ns], t, nproc)):
+                out[n] = r
+        return out
     cases, index = group_cases(cfgs)
     results = vlib.run_batch("c05", cases, nproc=nproc, pid=PID, tag=tag, stall=60)
     out = [None] * len(cfgs)
@@ -202,7 +216,11 @@ def judge(c, res, verd, stats):
     sent = res["sent"]
     want_sent = c["vals"] if c["route"] in ("pick", "hpick", "ctx") else c["vals"][0]
     if sent != want_sent:
-        raise vlib.ToolError("harness made %s from descriptor %s" % (json.dumps(sent), json.dumps(want_sent)))
+        # on a sound tree the mapping is the identity for every descriptor (checked on every run); a difference means
+        # the process state of the harness was damaged by an earlier transfer of this case
+        verd.report(sig_of(c, "sent-value-corrupted"), "%s: the harness made %s from descriptor %s (memory of the host "
+                    "process damaged by an earlier transfer)" % (what, json.dumps(sent)[:300], json.dumps(want_sent)[:300]), rep)
+        return False
     stats["observations"] += len(c["obs"])
     if res["o"] != c["obs"]:
         verd.report(sig_of(c, "mismatch"), "%s: the receiving side shows %s, Boundary says %s" %
